@@ -75,7 +75,7 @@ func safeLoad(repo, verif string) (p *Prog, err error) {
 		return nil, err
 	}
 	p.QueryTimeoutMs = 4000
-	p.UnitTimeout = 90 * time.Second
+	p.UnitTimeout = 180 * time.Second
 	if err := p.LoadSpecs(verif); err != nil {
 		return nil, err
 	}
